@@ -695,6 +695,54 @@ Proof.
     now rewrite set_nth_twice.
 Qed.
 
+(* ---- reset() / sensitivity() between the responses change neither the instances nor the files ---- *)
+Lemma set_nth_length {A} : forall (l : list A) k x, length (set_nth l k x) = length l.
+Proof. induction l as [|a l IH]; intros [|k] x; cbn; try reflexivity. now rewrite IH. Qed.
+
+Lemma vquiet_event_noop w e w' : v_quiet e = true -> wvti_event w e = Ok w' -> w' = w.
+Proof.
+  destruct w as [fs mods]. destruct e as [g sv ow os ss|i sg|n c|n|i|i]; cbn [v_quiet]; try discriminate; intros _;
+    unfold wvti_event; destruct (nth_error mods i); intros H; now inversion H.
+Qed.
+
+Lemma vquiet_event_valid fs mods e : v_quiet e = true ->
+  match e with VReset i | VSens i => (i < length mods)%nat | _ => True end -> wvti_event (fs, mods) e = Ok (fs, mods).
+Proof.
+  destruct e as [g sv ow os ss|i sg|n c|n|i|i]; cbn [v_quiet]; try discriminate; intros _ Hi; unfold wvti_event;
+    (destruct (nth_error mods i) eqn:E; [reflexivity|apply nth_error_None in E; lia]).
+Qed.
+
+Theorem vworld_run_strip : forall events w w',
+  wvti_world_run w events = Ok w' -> wvti_world_run w (v_strip events) = Ok w'.
+Proof.
+  induction events as [|e rest IH]; intros w w' H; cbn [wvti_world_run v_strip filter] in *; [exact H|].
+  destruct (wvti_event w e) as [w1|x] eqn:He; [|discriminate].
+  destruct (v_quiet e) eqn:Hq; cbn [negb].
+  - rewrite (vquiet_event_noop _ _ _ Hq He) in H. apply IH. exact H.
+  - cbn [wvti_world_run]. rewrite He. apply IH. exact H.
+Qed.
+
+Theorem vworld_calls_with_resets id : forall events calls fs mods m fs' m',
+  nth_error mods id = Some m ->
+  Forall (fun e => match e with VCall i _ => i = id | VReset i | VSens i => (i < length mods)%nat | _ => False end) events ->
+  v_strip events = map (VCall id) calls ->
+  wvti_fs_run fs m calls = Ok (fs', m') ->
+  wvti_world_run (fs, mods) events = Ok (fs', set_nth mods id m').
+Proof.
+  induction events as [|e rest IH]; intros calls fs mods m fs' m' Hm Hall Hstrip Hrun.
+  - destruct calls; [|discriminate]. cbn in *. inversion Hrun; subst. now rewrite set_nth_same.
+  - inversion Hall as [|e0 r0 He Hrest]; subst. cbn [wvti_world_run].
+    destruct e as [g sv ow os ss|i sg|n c|n|i|i]; try contradiction.
+    + subst i. cbn [v_strip filter v_quiet negb] in Hstrip. destruct calls as [|c calls]; [discriminate|].
+      cbn [map] in Hstrip. injection Hstrip as Hc Hstrip. subst c.
+      cbn [wvti_fs_run] in Hrun. destruct (wvti_step fs m sg) as [[fs1 m1]|x] eqn:Hs; [|discriminate].
+      unfold wvti_event. rewrite Hm, Hs.
+      rewrite (IH calls fs1 (set_nth mods id m1) m1 fs' m' (set_nth_get _ _ _ _ Hm)); [now rewrite set_nth_twice| |exact Hstrip|exact Hrun].
+      eapply Forall_impl; [|exact Hrest]. intros a Ha. destruct a; try exact Ha; now rewrite set_nth_length.
+    + rewrite (vquiet_event_valid fs mods (VReset i) eq_refl He). eapply IH; eauto.
+    + rewrite (vquiet_event_valid fs mods (VSens i) eq_refl He). eapply IH; eauto.
+Qed.
+
 (* the history function on a bare file system (used for fresh directories) is the run of one module instance *)
 Lemma wvti_run_is_fs_run : forall calls g saveto ow os ss it fs,
   wvti_run g saveto ow os ss it calls fs =
